@@ -391,7 +391,7 @@ theorem inv_newCells (kw : List String) (st st' : St) (h : Inv st) (p : Path) (n
 theorem inv_newRef (st st' : St) (h : Inv st) (p : Path) (name : String) (v : Nat) (hp : p ∈ st.ids)
     (hm : st.mem .refs p name = none)
     (hop : st.newRef p name v = some st') : Inv st' := by
-  unfold St.newRef at hop
+  unfold St.newRef St.newRefOk at hop
   cases hg : st.globals.contains name with
   | true =>
     simp only [hg, if_true] at hop
